@@ -13,14 +13,14 @@ import (
 	"github.com/go-task/task/v3/verifh/h"
 )
 
-const rule = "programs: seeded include trees of profile incl (depth <= 3, 1-3 includes per file, diamonds, the same file under two namespaces, Taskfiles in the root and in sub directories, include by file and by directory); include options {dir, optional(+missing file), internal, flatten, aliases, excludes, vars}: the empty set, every single option, all 21 pairs, then random triples, dealt to the include entries in that order; every file has tasks default/build/test/helper/excl/up with the SAME local names in every file (files meant to be flattened carry the file id in their task names), deps and task: references between them, ':'-prefixed references to the root's helper/rootonly, and one attribute carrier task that sets every YAML key of a task (never run). Fault trees: include cycles (self, 2, 3), missing non-optional file (depth 1 and deeper), schema version mismatch, flatten name conflicts (with the parent, between siblings), a parent task named like a namespaced included task. " +
-	"oracle: the include model of DESIGN Appendix C written from the documentation. (1) structural: after Setup in-process the key set of e.Taskfile.Tasks equals the model's name set and every exported field of ast.Task (enumerated by reflection) of every merged task equals its definition modulo the documented rewrites (name, deps/call targets, aliases, internal, dir, location); (2) behavioural: every callable name and alias is run through the rebuilt CLI; the multiset of probe lines ORIGIN=<file>#<task> TASK PWD FV IV must equal the model's trace (deps and task: references followed, ':' bound to the root Taskfile), internal names must fail and run nothing, --list-all --json must list exactly the non-internal names; fault trees must exit non-zero with no probe line. " +
+const rule = "programs: seeded include trees of profile incl (depth <= 3, 1-3 includes per file, diamonds, the same file under two namespaces, Taskfiles in the root and in sub directories, include by file and by directory); include options {dir, optional(+missing file), internal, flatten, aliases, excludes, vars}: the empty set, every single option, all 21 pairs, then random triples, dealt to the include entries in that order; every file has tasks default/build/test/helper/excl/up with the SAME local names in every file (files meant to be flattened carry the file id in their task names), deps and task: references between them, ':'-prefixed references to the root's helper/rootonly, and one attribute carrier task that sets every YAML key of a task (never run). Fault trees: include cycles (self, 2, 3), missing non-optional file (depth 1 and deeper), schema version mismatch, an included file without version, flatten name conflicts (with the parent, between siblings), a parent task named like a namespaced included task; each kind plain and with the fault 1 and 2 include levels BELOW an include marked optional whose file exists (optional excuses only a missing file). Every sixth tree has a forced diamond (two short-form siblings including one common file in the long form with different dir and vars); every file has a dynamic variable DV (sh: pwd). " +
+	"oracle: the include model of DESIGN Appendix C written from the documentation. (1) structural: after Setup in-process the key set of e.Taskfile.Tasks equals the model's name set and every exported field of ast.Task (enumerated by reflection) of every merged task equals its definition modulo the documented rewrites (name, deps/call targets, aliases, internal, dir, location); (2) behavioural: every callable name and alias is run through the rebuilt CLI; the multiset of probe lines ORIGIN=<file>#<task> TASK PWD FV IV DV must equal the model's trace (deps and task: references followed, ':' bound to the root Taskfile), internal names must fail and run nothing, --list-all --json must list exactly the non-internal names; fault trees must exit non-zero with no probe line. " +
 	"a case is one (tree, name) run, one listing, one structural comparison or one fault tree; non-trivial = the name denotes an included task (depth >= 1) or the case is a fault tree; distinct by (hash of the tree's files, name)."
 
 type obsLine struct {
-	Origin, Task, PWD, FV, IV string
-	raw                       string
-	used                      bool
+	Origin, Task, PWD, FV, IV, DV string
+	raw                           string
+	used                          bool
 }
 
 func parseLines(stdout string) []*obsLine {
@@ -43,6 +43,8 @@ func parseLines(stdout string) []*obsLine {
 				o.FV = v
 			case "IV":
 				o.IV = v
+			case "DV":
+				o.DV = v
 			}
 		}
 		out = append(out, o)
@@ -69,7 +71,7 @@ func match(exp []Line, obs []*obsLine) []Finding {
 	// exact matches first
 	for _, e := range exp {
 		o := find(func(o *obsLine) bool {
-			return o.Origin == e.Origin && o.Task == e.Task && (e.PWD == "*" || o.PWD == e.PWD) && o.FV == e.FV && (e.IV == "*" || o.IV == e.IV)
+			return o.Origin == e.Origin && o.Task == e.Task && (e.PWD == "*" || o.PWD == e.PWD) && o.FV == e.FV && (e.IV == "*" || o.IV == e.IV) && (e.DV == "*" || o.DV == e.DV)
 		})
 		if o != nil {
 			o.used = true
@@ -85,6 +87,8 @@ func match(exp []Line, obs []*obsLine) []Finding {
 				out = append(out, Finding{fmt.Sprintf("C08 | run.pwd | depth=%d flatten=%v", e.Depth, e.Flat), fmt.Sprintf("task %s (%s) ran in %s, expected %s", e.Task, e.Origin, o.PWD, e.PWD)})
 			case o.FV != e.FV:
 				out = append(out, Finding{fmt.Sprintf("C08 | run.file-var | depth=%d", e.Depth), fmt.Sprintf("task %s (%s) saw FV=%q, expected %q", e.Task, e.Origin, o.FV, e.FV)})
+			case e.IV == "*" || o.IV == e.IV:
+				out = append(out, Finding{fmt.Sprintf("C08 | run.file-sh-var | depth=%d", e.Depth), fmt.Sprintf("task %s (%s) saw its file's dynamic variable DV=%q (sh: pwd), expected the directory of its own include %q", e.Task, e.Origin, o.DV, e.DV)})
 			default:
 				out = append(out, Finding{fmt.Sprintf("C08 | run.include-var | depth=%d flatten=%v", e.Depth, e.Flat), fmt.Sprintf("task %s (%s) saw IV=%q, expected the include's %q", e.Task, e.Origin, o.IV, e.IV)})
 			}
@@ -125,7 +129,7 @@ func Run(id string, start time.Time) int {
 		return 2
 	}
 	nOK := h.Pick(70, 700)
-	nFault := h.Pick(36, 270)
+	nFault := h.Pick(60, 300)
 	maxNames := h.Pick(40, 120)
 
 	// the option sets are dealt to include entries in a fixed order: pairwise first
@@ -153,8 +157,14 @@ func Run(id string, start time.Time) int {
 	for i := 0; i < nOK; i++ {
 		trees = append(trees, GenOK(h.Rng(8, 10, int64(i)), i, next))
 	}
+	// every fault kind plain (0) and 1 and 2 include levels below an optional include of an existing file
 	for i := 0; i < nFault; i++ {
-		trees = append(trees, GenFault(h.Rng(8, 20, int64(i)), nOK+i, Faults[i%len(Faults)], next))
+		fault, below := Faults[i%len(Faults)], (i/len(Faults))%3
+		if below == 0 {
+			trees = append(trees, GenFault(h.Rng(8, 20, int64(i)), nOK+i, fault, next))
+		} else {
+			trees = append(trees, GenFaultBelowOptional(h.Rng(8, 20, int64(i)), nOK+i, fault, below, next))
+		}
 	}
 
 	h.Parallel(len(trees), 16, func(i int) { runTree(part, bin, scratch, trees[i], maxNames) })
@@ -190,6 +200,7 @@ func Run(id string, start time.Time) int {
 			"working directory is judged only where 'current directory', 'the parent Taskfile directory' and 'the directory of the including Taskfile' coincide (every including file in the project root) and at most the innermost include gives dir; other combinations are printed but not judged (documentation silent)",
 			"an include variable is judged only for the instance whose own include entry defines it; whether outer or sibling includes' vars leak is not judged",
 			"the alias set of tasks reached through flatten + namespace aliases is not judged (documentation silent)",
+			"the file's dynamic variable DV (sh: pwd) is judged only where the include of the defining file is long-form with dir, all outer includes are short-form and all including files are in the project root; expected: the directory given by that include (schema: 'dir: the working directory of the included tasks when run'), i.e. copies of one file under two includes do not see each other's dir; everywhere else it is printed, not judged",
 			"Namespace, IncludeVars and IncludedTaskfileVars of ast.Task are populated by the merge itself and are not compared with the definition",
 			"the order of the merged table is not part of this oracle (C09)",
 			"fault trees: only 'non-zero exit and no probe line' is required; exit codes are recorded, not judged",
@@ -228,6 +239,14 @@ func runTree(part *h.Partial, bin, scratch string, t *Tree, maxNames int) {
 	for _, f := range t.Files {
 		files[f.Path] = f.Text
 	}
+	for _, f := range t.Files {
+		for _, inc := range f.Incs {
+			if inc.Dir != "" {
+				// the file's dynamic variable runs in the include's dir before any task could create it
+				files[filepath.Join(filepath.Dir(f.Path), inc.Dir, ".keep")] = ""
+			}
+		}
+	}
 	if err := h.WriteTree(dir, files); err != nil {
 		part.Inconc("write: " + err.Error())
 		return
@@ -256,6 +275,11 @@ func runTree(part *h.Partial, bin, scratch string, t *Tree, maxNames int) {
 	// ---- fault trees: an error, non-zero exit, nothing runs
 	if m.Err != "" {
 		part.Count("fault_trees", 1)
+		below := ""
+		if t.BelowOpt > 0 {
+			below = " below-optional"
+			part.Count("fault_trees_below_optional", 1)
+		}
 		part.SetAdd("fault_kinds", t.Kind+"=>"+m.Err)
 		_, serr := Setup(dir)
 		r := h.CLI{Bin: bin, Dir: dir, Args: []string{"--silent", "default"}}.Run()
@@ -266,11 +290,14 @@ func runTree(part *h.Partial, bin, scratch string, t *Tree, maxNames int) {
 		}
 		part.SetAdd("fault_exit_codes", fmt.Sprintf("%s:%d", m.Err, r.Exit))
 		lines := parseLines(r.Stdout)
+		if pe, ok := serr.(*PanicError); ok {
+			report(Finding{"C08 | setup.panic | " + m.Err + below, fmt.Sprintf("the tree has a %s (%s); Executor.Setup panicked instead of returning an error: %s", m.Err, t.Kind, pe.Value)}, map[string]any{"expected": "error", "fault": t.Kind, "stack": h.Truncate(pe.Stack, 3000)})
+		}
 		if serr == nil {
-			report(Finding{"C08 | error-not-reported | " + m.Err + " | setup", fmt.Sprintf("the tree has a %s (%s) but Executor.Setup returned no error", m.Err, t.Kind)}, map[string]any{"expected": "error", "fault": t.Kind})
+			report(Finding{"C08 | error-not-reported | " + m.Err + below + " | setup", fmt.Sprintf("the tree has a %s (%s) but Executor.Setup returned no error", m.Err, t.Kind)}, map[string]any{"expected": "error", "fault": t.Kind})
 		}
 		if r.Exit == 0 || len(lines) > 0 || r.Crashed() {
-			report(Finding{"C08 | error-not-reported | " + m.Err + " | cli", fmt.Sprintf("the tree has a %s (%s); `task default` exited %d and printed %d probe lines", m.Err, t.Kind, r.Exit, len(lines))},
+			report(Finding{"C08 | error-not-reported | " + m.Err + below + " | cli", fmt.Sprintf("the tree has a %s (%s); `task default` exited %d and printed %d probe lines", m.Err, t.Kind, r.Exit, len(lines))},
 				map[string]any{"expected": "non-zero exit, no probe line", "exit": r.Exit, "stdout": h.Truncate(r.Stdout, 2000), "stderr": h.Truncate(r.Stderr, 2000)})
 		}
 		if len(part.Samples) < 4 && t.Index%7 == 0 {
@@ -288,6 +315,10 @@ func runTree(part *h.Partial, bin, scratch string, t *Tree, maxNames int) {
 	// ---- (1) structural
 	e, serr := Setup(dir)
 	part.Eval(t.Hash+"|table", len(t.Files) > 1)
+	if pe, ok := serr.(*PanicError); ok {
+		report(Finding{"C08 | setup.panic | ok-tree", fmt.Sprintf("Executor.Setup panicked: %s", pe.Value)}, map[string]any{"expected": "loads", "stack": h.Truncate(pe.Stack, 3000)})
+		return
+	}
 	if serr != nil {
 		report(Finding{fmt.Sprintf("C08 | setup | unexpected-error | %T", serr), fmt.Sprintf("the model expects the tree to load, Setup failed: %v", serr)}, map[string]any{"expected": "loads"})
 		return
@@ -403,6 +434,9 @@ func runTree(part *h.Partial, bin, scratch string, t *Tree, maxNames int) {
 			}
 			if l.IV != "*" {
 				part.Count("include_var_judged", 1)
+			}
+			if l.DV != "*" {
+				part.Count("file_sh_var_judged", 1)
 			}
 		}
 		var expS, obsS []string
